@@ -129,6 +129,293 @@ theorem roundtrip_baseIds (m : MRS) (hN : BaseIdsDistinct m) (hR : RolesOk m = t
     rtctx m hN hR chosen d m2 h1 h2
   exact C.baseIds2 hS
 
+/-! ## 3. "… yields an MRS isomorphic to the original once what DMRS cannot express … is removed":
+the positional form of the isomorphism
+
+The correspondence is positional: the predication at position `i` of `m` ↦ the one at position `i`
+of `m2` (`roundtrip_predications`), its intrinsic variable ↦ the intrinsic variable there, its
+label ↦ the label there, the hole of its qeq argument with role `r` ↦ the hole of the argument
+with role `r` there.  The theorems below state that this correspondence preserves arguments,
+handle constraints and label sharing.  Not done: packaging it as ONE bijection on variables
+between `strip m` and `m2` (it needs the two hypotheses of the next comment).
+
+FULL STATEMENT (not proved): `fromDmrs chosen (fromMrs m)` ≅ `strip m` by an explicit bijection of
+variables.  Missing hypotheses, both forced by the code: (a) every scope is held together by EQ
+and MOD/EQ links (no group of its members without a representative — otherwise the round trip
+splits the scope, finding F08), needed for "same label in `m` ⇒ same label in `m2`"; (b) every
+quantifier binds the intrinsic variable of the first representative of its restriction (otherwise
+the round trip rebinds it).  `roundtrip_labels` gives the converse direction of (a)
+unconditionally. -/
+
+/-- **Arguments, forward.**  A non-scopal argument `(r, v)` of the predication at `i`, `v` the
+intrinsic variable of the non-quantifier at `j`, comes back as `(r, v2)` with `v2` the intrinsic
+variable of the predication at `j` of `m2`. -/
+theorem roundtrip_nonscopal_args (m : MRS) (hN : BaseIdsDistinct m) (hR : RolesOk m = true)
+    (hS : IVSorts m = true) (chosen : List Var) (d : DMRS) (m2 : MRS)
+    (h1 : fromMrs m = .ok d) (h2 : fromDmrs chosen d = .ok m2)
+    (i j : Nat) (e ej e2 ej2 : EP) (he : m.rels[i]? = some e) (hej : m.rels[j]? = some ej)
+    (he2 : m2.rels[i]? = some e2) (hej2 : m2.rels[j]? = some ej2)
+    (r : Role) (v : Var) (ha : (r, v) ∈ e.outArgs none) (hq : ej.isQuantifier = false)
+    (hiv : ej.iv = some v) : ∃ v2, ej2.iv = some v2 ∧ (r, v2) ∈ e2.args := by
+  obtain ⟨reps, topLbl, sc, lbl, leqs, idToIv, ns, scs, lo, hi, C⟩ :=
+    rtctx m hN hR chosen d m2 h1 h2
+  obtain ⟨o, ho, hol⟩ := fromMrs_argLink_ok m reps d C.hreps h1 i e he (r, v) ha
+  obtain ⟨nn, hnn⟩ := ivToNid_isSome m v ej (List.mem_of_getElem? hej) hq hiv
+  obtain ⟨l, rfl⟩ := argLink_some_of_linked m reps _ e (r, v) o ho (by
+    unfold argLinked; rw [hnn]; rfl)
+  have hl := hol l rfl
+  obtain ⟨hstart, hrole⟩ := argLink_start_role m reps _ e (r, v) l ho
+  -- the link goes to node j
+  have hstop : l.stop = nidAt j := by
+    unfold argLink at ho
+    rw [hnn] at ho
+    simp only at ho
+    cases hep : epById m v with
+    | none => rw [hep] at ho; cases ho
+    | some t =>
+      rw [hep] at ho
+      simp only [Except.ok.injEq, Option.some.injEq] at ho
+      rw [← ho]
+      simp only
+      obtain ⟨j', e', c1, c2, c3, c4⟩ := ivToNid_some m v nn hnn
+      rw [c4]
+      -- unique intrinsic variables (the identifiers are distinct)
+      have b1 := preds_getElem?_base m hN j' e' c1
+      have b2 := preds_getElem?_base m hN j ej hej
+      rw [baseId_of_iv e' v c2 c3] at b1
+      rw [baseId_of_iv ej v hq hiv] at b2
+      have hk := preds_keys_nodup m hN
+      have := key_unique hk (List.mem_of_getElem? b1) (List.mem_of_getElem? b2) rfl
+      have hnd := ids_nodup m hN
+      have p1 := posOf_of_getElem m hnd j' _ b1
+      have p2 := posOf_of_getElem m hnd j _ b2
+      rw [this] at p1
+      rw [← p1, p2]
+  have hpost : l.post ≠ H_POST ∧ l.post ≠ HEQ_POST := by
+    unfold argLink at ho
+    rw [hnn] at ho
+    simp only at ho
+    cases hep : epById m v with
+    | none => rw [hep] at ho; cases ho
+    | some t =>
+      rw [hep] at ho
+      simp only [Except.ok.injEq, Option.some.injEq] at ho
+      rw [← ho]
+      simp only
+      split <;> exact ⟨by decide, by decide⟩
+  have hmod : l.role ≠ BARE_EQ_ROLE := by
+    intro hm
+    unfold RolesOk at hR
+    rw [List.all_eq_true] at hR
+    have hre := hR e (List.mem_of_getElem? he)
+    simp only [Bool.and_eq_true, Bool.not_eq_true', List.any_eq_false] at hre
+    have := hre.2 (r, v) (mem_outArgs e _ ha).1
+    rw [← hrole, hm] at this
+    simp at this
+  have hnsl := nsLink_of_post m hN hS reps d C.hreps h1 l hl hmod hpost.1 hpost.2
+  obtain ⟨n, e2', iv, hn, hid, he2', ps, _⟩ := C.at_pos i e he
+  rw [he2] at he2'; cases he2'
+  obtain ⟨nj, ej2', ivj, hnj, hidj, hej2', psj, hivj⟩ := C.at_pos j ej hej
+  rw [hej2] at hej2'; cases hej2'
+  obtain ⟨_, c2, _⟩ := ps.complete (C.rf n.id)
+  obtain ⟨v2, hv2, hm⟩ := c2 _ (C.spec.nsComplete l hl hnsl) (by rw [hstart, hid])
+  have : v2 = ivj := by
+    have := psj.ivOk
+    rw [hidj, ← hstop, hv2] at this
+    simpa using this
+  subst this
+  have hrole' : l.role = r := hrole
+  exact ⟨v2, hivj, by rw [← hrole']; exact hm⟩
+
+/-- **Scopal arguments, forward.**  An argument `(r, v)` of the predication at `i` that is no
+intrinsic variable and selects (through its handle constraint, or directly as a label) a scope
+whose first representative sits at position `p` comes back, for a direct label, as
+`(r, label of m2.rels[p])`, and for a handle constraint as `(r, hole)` with a handle constraint
+`hole qeq label of m2.rels[p]`. -/
+theorem roundtrip_scopal_args (m : MRS) (hN : BaseIdsDistinct m) (hR : RolesOk m = true)
+    (chosen : List Var) (d : DMRS) (m2 : MRS)
+    (h1 : fromMrs m = .ok d) (h2 : fromDmrs chosen d = .ok m2) (reps : Reps)
+    (hreps : m.representatives = .ok reps)
+    (i p : Nat) (e e2 ep2 : EP) (he : m.rels[i]? = some e)
+    (he2 : m2.rels[i]? = some e2) (hep2 : m2.rels[p]? = some ep2)
+    (r : Role) (v : Var) (ha : (r, v) ∈ e.outArgs none) (hniv : ivToNid m v = none)
+    (tgt : Pred) (rest : List Pred)
+    (hlook : dlookup (scopalTarget m v).1 reps = some (tgt :: rest))
+    (hp : predAt m (nidAt p) = some tgt) :
+    ((scopalTarget m v).2 = HEQ_POST → (r, ep2.label) ∈ e2.args) ∧
+    ((scopalTarget m v).2 = H_POST → ∃ hole, (r, hole) ∈ e2.args ∧
+      (⟨hole, QEQ, ep2.label⟩ : HCons) ∈ m2.hcons) := by
+  obtain ⟨reps', topLbl, sc, lbl, leqs, idToIv, ns, scs, lo, hi, C⟩ :=
+    rtctx m hN hR chosen d m2 h1 h2
+  have : reps' = reps := by
+    have := C.hreps; rw [hreps] at this; simpa using this.symm
+  subst this
+  obtain ⟨o, ho, hol⟩ := fromMrs_argLink_ok m reps' d C.hreps h1 i e he (r, v) ha
+  have htm := (rep_lookup_member m reps' C.hreps _ _ hlook tgt List.mem_cons_self).1
+  have hnid := idToNid_pos m hN tgt htm
+  have hpos : posOf m tgt = p := (nidAt_inj _ _ (predAt_pos m hN _ _ hp)).symm
+  have hl_eq : o = some ⟨nidAt i, nidAt p, r, (scopalTarget m v).2⟩ := by
+    unfold argLink at ho
+    rw [hniv] at ho
+    simp only [hlook, hnid, hpos, Except.ok.injEq] at ho
+    exact ho.symm
+  have hl := hol _ hl_eq
+  obtain ⟨n, e2', iv, hn, hid, he2', ps, _⟩ := C.at_pos i e he
+  rw [he2] at he2'; cases he2'
+  have hplt : p < m.rels.length := by
+    have h3 := hp
+    rw [predAt_nidAt] at h3
+    have h4 := (List.getElem?_eq_some_iff.mp h3).1
+    unfold MRS.preds at h4
+    rw [List.length_zip, ids_length] at h4
+    omega
+  obtain ⟨np, ep2', ivp, hnp, hidp, hep2', psp, _⟩ :=
+    C.at_pos p m.rels[p] (List.getElem?_eq_getElem hplt)
+  rw [hep2] at hep2'; cases hep2'
+  obtain ⟨_, _, c3⟩ := ps.complete (C.rf n.id)
+  have hpostcases : (scopalTarget m v).2 = H_POST ∨ (scopalTarget m v).2 = HEQ_POST := by
+    unfold scopalTarget; split <;> simp
+  have hne : H_POST ≠ HEQ_POST := by decide
+  constructor
+  · intro hheq
+    have hsr : scRel ⟨nidAt i, nidAt p, r, (scopalTarget m v).2⟩ = some LHEQ := by
+      unfold scRel; simp [hheq]
+    obtain ⟨lb, hlb, hmem⟩ := C.spec.scComplete _ hl _ hsr
+    have hlbp : lb = ep2.label := by
+      have := psp.labelOk
+      simp only at hlb
+      rw [hidp, hlb] at this
+      simpa using this
+    rcases c3 _ hmem (by simp only; rw [hid]) with ⟨_, hm⟩ | ⟨hq, _⟩
+    · rw [← hlbp]; exact hm
+    · simp only at hq; exact absurd hq (by decide)
+  · intro hh
+    have hsr : scRel ⟨nidAt i, nidAt p, r, (scopalTarget m v).2⟩ = some QEQ := by
+      unfold scRel; simp [hh, hne]
+    obtain ⟨lb, hlb, hmem⟩ := C.spec.scComplete _ hl _ hsr
+    have hlbp : lb = ep2.label := by
+      have := psp.labelOk
+      simp only at hlb
+      rw [hidp, hlb] at this
+      simpa using this
+    rcases c3 _ hmem (by simp only; rw [hid]) with ⟨hq, _⟩ | ⟨_, hole, hm, _, hhc⟩
+    · simp only at hq; exact absurd hq (by decide)
+    · exact ⟨hole, hm, by rw [← hlbp]; exact hhc⟩
+
+/-- **Arguments, backward.**  Every argument of a predication of `m2` other than `ARG0` is the
+`BODY` hole `from_dmrs` gives a quantifier, or carries a role the predication of `m` at that
+position has as well. -/
+theorem roundtrip_args_backward (m : MRS) (hN : BaseIdsDistinct m) (hR : RolesOk m = true)
+    (chosen : List Var) (d : DMRS) (m2 : MRS)
+    (h1 : fromMrs m = .ok d) (h2 : fromDmrs chosen d = .ok m2)
+    (i : Nat) (e e2 : EP) (he : m.rels[i]? = some e) (he2 : m2.rels[i]? = some e2)
+    (a : Role × Var) (ha : a ∈ e2.args) :
+    a.1 = INTRINSIC_ROLE ∨ (a.1 = BODY_ROLE ∧ e.isQuantifier = true) ∨
+      ∃ v, (a.1, v) ∈ e.outArgs none := by
+  obtain ⟨reps, topLbl, sc, lbl, leqs, idToIv, ns, scs, lo, hi, C⟩ :=
+    rtctx m hN hR chosen d m2 h1 h2
+  obtain ⟨n, e2', iv, hn, hid, he2', ps, _⟩ := C.at_pos i e he
+  rw [he2] at he2'; cases he2'
+  have fromLink : ∀ l ∈ d.links, l.start = n.id → l.role ≠ BARE_EQ_ROLE →
+      ∃ v, (l.role, v) ∈ e.outArgs none := by
+    intro l hl hs hmod
+    obtain ⟨i', _, e', q1, _, q3, _, q5⟩ := justified_ends m reps l (C.links_just l hl)
+    have : i' = i := nidAt_inj _ _ (by rw [← q1, hs, hid])
+    subst this
+    rw [he] at q3; cases q3
+    rcases q5 with hm | hv
+    · exact absurd hm hmod
+    · exact hv
+  cases ps.origin a ha with
+  | arg0 h => left; rw [h]
+  | ns x hx hidx hr hv =>
+    obtain ⟨l, hl, rfl, hnsl⟩ := C.spec.nsMem x hx
+    right; right
+    rw [hr]
+    exact fromLink l hl hidx hnsl.1
+  | lheq x hx hidx hr hrel hv =>
+    obtain ⟨l, hl, a1, a2, a3, _⟩ := C.spec.scMem x hx
+    right; right
+    rw [hr, a2]
+    refine fromLink l hl (by rw [← a1, hidx]) ?_
+    intro hm
+    have := (fromMrs_link_role m hR reps d C.hreps h1 l hl).2 hm
+    unfold scRel at a3
+    rw [this] at a3
+    simp [EQ_POST, HEQ_POST, H_POST] at a3
+  | qeq x hx hidx hr hrel hnew hhc =>
+    obtain ⟨l, hl, a1, a2, a3, _⟩ := C.spec.scMem x hx
+    right; right
+    rw [hr, a2]
+    refine fromLink l hl (by rw [← a1, hidx]) ?_
+    intro hm
+    have := (fromMrs_link_role m hR reps d C.hreps h1 l hl).2 hm
+    unfold scRel at a3
+    rw [this] at a3
+    simp [EQ_POST, HEQ_POST, H_POST] at a3
+  | body hr hq hnew hfree =>
+    right; left
+    refine ⟨hr, ?_⟩
+    unfold dIsQuantifier at hq
+    rw [List.any_eq_true] at hq
+    obtain ⟨l, hl, hc⟩ := hq
+    simp only [Bool.and_eq_true, decide_eq_true_eq] at hc
+    exact rstr_link_quantifier m reps l (C.links_just l hl) hc.2 i e (by rw [hc.1, hid]) he
+
+/-- **Label sharing.**  Two predications of `m2` with one label come from two predications of `m`
+with one label (the round trip never merges scopes), and two predications of `m` joined by an
+`EQ` link of the DMRS keep one label. -/
+theorem roundtrip_labels (m : MRS) (hN : BaseIdsDistinct m) (hR : RolesOk m = true)
+    (chosen : List Var) (d : DMRS) (m2 : MRS)
+    (h1 : fromMrs m = .ok d) (h2 : fromDmrs chosen d = .ok m2)
+    (i j : Nat) (e ej e2 ej2 : EP) (he : m.rels[i]? = some e) (hej : m.rels[j]? = some ej)
+    (he2 : m2.rels[i]? = some e2) (hej2 : m2.rels[j]? = some ej2) :
+    (e2.label = ej2.label → e.label = ej.label) ∧
+    (∀ l ∈ d.links, l.post = EQ_POST → l.start = nidAt i → l.stop = nidAt j →
+      e2.label = ej2.label) := by
+  obtain ⟨reps, topLbl, sc, lbl, leqs, idToIv, ns, scs, lo, hi, C⟩ :=
+    rtctx m hN hR chosen d m2 h1 h2
+  obtain ⟨n, e2', iv, hn, hid, he2', ps, _⟩ := C.at_pos i e he
+  rw [he2] at he2'; cases he2'
+  obtain ⟨nj, ej2', ivj, hnj, hidj, hej2', psj, _⟩ := C.at_pos j ej hej
+  rw [hej2] at hej2'; cases hej2'
+  have hilt : i < m.rels.length := (List.getElem?_eq_some_iff.mp he).1
+  have hjlt : j < m.rels.length := (List.getElem?_eq_some_iff.mp hej).1
+  have hsl := C.spec.scopes.sameLabel_iff (List.mem_of_getElem? hn) (List.mem_of_getElem? hnj)
+  rw [ps.labelOk, psj.labelOk] at hsl
+  constructor
+  · intro hl
+    obtain ⟨k, nk, hk, hnk, hx, hlk⟩ := C.reach_same_label i hilt n hn _ (hsl.mp (by rw [hl]))
+    have : nk = nj := C.spec.scopes.lblInj nk (List.mem_of_getElem? hnk) nj
+      (List.mem_of_getElem? hnj) hx.symm
+    subst this
+    have hkj : k = j := by
+      have := fromMrs_node_id m hN d h1 k nk hnk
+      rw [hidj] at this
+      exact (nidAt_inj _ _ this.1).symm
+    subst hkj
+    have e1 : m.rels[i] = e := by
+      have := he; rw [List.getElem?_eq_getElem hilt] at this; simpa using this
+    have e2' : m.rels[k] = ej := by
+      have := hej; rw [List.getElem?_eq_getElem hjlt] at this; simpa using this
+    rw [← e1, ← e2', hlk]
+  · intro l hl hp hs ht
+    obtain ⟨a, b, hab, d1, d2⟩ := C.leqs_of_link l hl hp
+    have la : a = lbl n := by
+      have := C.spec.scopes.lblOk n (List.mem_of_getElem? hn)
+      rw [hid, ← hs, d1] at this
+      simpa using this
+    have lb : b = lbl nj := by
+      have := C.spec.scopes.lblOk nj (List.mem_of_getElem? hnj)
+      rw [hidj, ← ht, d2] at this
+      simpa using this
+    have hreach : Reach (adjOf (symm leqs)) (lbl n) (lbl nj) := by
+      refine Reach.tail (Reach.refl _) ?_
+      rw [mem_adjOf, mem_symm, ← la, ← lb]
+      exact Or.inl hab
+    have := hsl.mpr hreach
+    simpa using this
+
 /-- the hypotheses are satisfiable together, on a structure with a quantifier, a modifier sharing
 a label, a qeq-scopal and a label-scopal argument: "the big dog does not bark" (with the negated
 clause also given as a direct label argument of a second operator). -/
